@@ -10,6 +10,7 @@ CONSTANTS
   MaxBatch = 1
   BatchVecs = {1}
   FConsolidateTombstones = TRUE
+  ConsolidateBatch = 100
   FBufferBlind = TRUE
 VIEW View
 INVARIANTS TypeOK EmitDone C33Witness
